@@ -105,6 +105,29 @@ def race_reports(out):
     return repo, own
 
 
+def replay_only(ctx):
+    """bin/check C16 --replay evidence/replays/C16-n.json : re-run exactly that script on the real adapter and judge it."""
+    rp = json.load(open(ctx.replay))
+    cd = (rp.get("detail") or {}).get("case_def")
+    if not cd:
+        raise Inconclusive("replay file has no script (storm findings are re-run by seed: VERIF_SEED=%s)" % rp.get("seed"))
+    cp, obs, empty = ctx.path("case.ndjson"), ctx.path("obs.ndjson"), ctx.path("storm.ndjson")
+    vlib.write_ndjson(cp, [cd])
+    open(empty, "w").close()
+    ctx.must_run_go(ctx.go_bin("gstx"), "TestReplay", env={"VERIF_CASES": cp, "VERIF_OUT": obs}, timeout=120)
+    res = ctx.tlc("GsTJudge", "gst-judge.cfg", workers=1, timeout=300, extra_files=[obs, empty])
+    vlib.tlc_must_pass(res, "GsTJudge")
+    p = os.path.join(res.dir, "verdicts.ndjson")
+    ctx.traces = 1
+    for v in (vlib.read_ndjson(p) if os.path.exists(p) else []):
+        if v["rule"] == "conf":
+            ctx.drift.append(v)
+        elif v["rule"] in ("harness", "script"):
+            raise Inconclusive("replay: %s" % v)
+        else:
+            ctx.violation(key_of(v), "%s violated by %s (replayed case %s step %s)" % (v["rule"], v["op"], v["case"], v["i"]), detail={"verdict": v, "case_def": cd})
+
+
 def key_of(v):
     if v["rule"] == CONSUMER_RULE:
         return {"rule": CONSUMER_RULE, "source": "executeGsRequest"}
@@ -126,6 +149,8 @@ def run(ctx):
         "storm rules for noise callbacks are the interleaving-independent weakenings stated in GsTJudge.tla",
     ]
     seed = ctx.seed
+    if ctx.replay:
+        return replay_only(ctx)
     pool = ThreadPoolExecutor(max_workers=8)
     spool = ThreadPoolExecutor(max_workers=6)
     # 0. harness build (in the background while TLC works)
@@ -139,7 +164,7 @@ def run(ctx):
     fe = [pool.submit(model_check, ctx, n, **kw) for n, kw in exh]
     fc = pool.submit(consumer_cex, ctx)
     # 2. behaviours
-    n_per, length = (70, 16) if q else (80, 22)
+    n_per, length = (50, 16) if q else (80, 22)
     jobs = []
     k = 0
     for mi, mix in enumerate(MIXES):
@@ -233,13 +258,20 @@ def run(ctx):
     ctx.traces = n1 + n2
     # 6. verdicts
     storm_idx = {s["case"]: s for s in storm_rows}
+    # per case and rule only the first failing step (later ones are usually consequences of the first)
+    first = {}
     for v in v1 + v2:
+        k = (v["case"], v["rule"])
+        if k not in first or (v["case"] not in storm_idx and v["i"] < first[k]["i"]):
+            first[k] = v
+    for v in sorted(first.values(), key=lambda v: (v["case"], v["i"], v["rule"])):
         rule = v["rule"]
         is_storm = v["case"] in storm_idx
         detail = {"verdict": v}
         if not is_storm:
             c = obs_idx.get(v["case"], {"steps": []})
             upto = [s for s in c["steps"] if s["i"] <= v["i"]]
+            detail["case_def"] = {"case": v["case"], "c1": c.get("c1", {}), "c2": c.get("c2", {}), "steps": [s["a"] for s in upto]}
             detail["script"] = [dict((k, x) for k, x in s["a"].items() if x not in ("", 0, -1, "nil", "none") and x != {"init": "", "resp": "", "tid": 0}) for s in upto]
             detail["observed"] = dict((k, upto[-1][k]) for k in ("ret", "opret", "out", "gsc", "hook", "opts")) if upto else None
         if rule == "harness":
